@@ -194,21 +194,25 @@ def recvWindowUpdate (c : H2Conn) (sid len inc : Nat) : Res :=
       else if s.swin > int32Max - inc then (rstState c sid, [.rst sid E.flowControl])
       else (updStrm c sid fun x => { x with swin := x.swin + inc }, [])
 
-/-- h2_parse_frame_settings(): apply parameters in order; stops at the first connection error -/
+/-- a stream whose send window SETTINGS_INITIAL_WINDOW_SIZE still applies to -/
+def Strm.live (s : Strm) : Bool := decide (s.st ≠ .hcLocal ∧ s.st ≠ .closed)
+
+/-- h2_parse_frame_settings(): apply parameters in order; stops at the first connection error.
+    A change of SETTINGS_INITIAL_WINDOW_SIZE that would take the window of ANY live stream out of
+    range is a connection FLOW_CONTROL_ERROR (RFC 9113 6.9.2); otherwise the difference is applied
+    to every live stream. -/
 def applySettings : H2Conn → List (Nat × Nat) → Res
   | c, [] => (c, [])
   | c, (k, v) :: rest =>
     if k = 2 ∧ v > 1 then sendGoaway c E.protocol
     else if k = 4 then
-      if (v : Int) > int32Max then sendGoaway c E.flowControl else
-      let diff : Int := (v : Int) - c.initWin
-      let hit := c.streams.filter fun s => s.st ≠ .hcLocal ∧ s.st ≠ .closed ∧ winOverflows s.swin diff
-      let c1 := { c with streams := c.streams.map fun s =>
-                    if s.st = .hcLocal ∨ s.st = .closed ∨ winOverflows s.swin diff then s
-                    else { s with swin := s.swin + diff } }
-      let c2 := hit.foldl (fun c s => rstState c s.id) c1
-      let (c3, o) := applySettings { c2 with initWin := v } rest
-      (c3, (hit.map fun s => Out.rst s.id E.flowControl) ++ o)
+      if (v : Int) > int32Max then sendGoaway c E.flowControl
+      else if c.streams.any (fun s => s.live && winOverflows s.swin ((v : Int) - c.initWin)) then
+        sendGoaway c E.flowControl
+      else
+        applySettings { c with initWin := v,
+                               streams := c.streams.map fun s =>
+                                 if s.live then { s with swin := s.swin + ((v : Int) - c.initWin) } else s } rest
     else if k = 5 then
       if v < 16384 ∨ v > 16777215 then sendGoaway c E.protocol
       else applySettings { c with peerMaxFrame := v } rest
